@@ -61,17 +61,17 @@ type world struct {
 	src     *jobh.FakeSource
 	hb      map[string]time.Time // last registration per node (model of liveness)
 	purged  map[string]bool
-	reg     map[string]bool      // registered and not deregistered
-	seen    int                  // calls already judged
-	pending uint64               // checkpoint id announced by the last StartCheckpoint, 0 = none
+	reg     map[string]bool // registered and not deregistered
+	seen    int             // calls already judged
+	pending uint64          // checkpoint id announced by the last StartCheckpoint, 0 = none
 	acked   map[string]bool
 	asmOps  []string // members of the assembly of the last deploy
 	asmSRs  []string
-	lost    bool   // a member of the current assembly was lost since its deploy
+	lost    bool // a member of the current assembly was lost since its deploy
 	lostM   map[string]bool
-	gen     map[string]int // processes started in a node slot so far - 1
+	gen     map[string]int  // processes started in a node slot so far - 1
 	down    map[string]bool // the slot's process deregistered
-	finish  bool   // the deployment that was in flight when the member was lost is just completing
+	finish  bool            // the deployment that was in flight when the member was lost is just completing
 	losses  int
 	done    uint64 // latest completed checkpoint (model)
 	errs    []string
@@ -207,7 +207,9 @@ func body(c *mc.Ctx) {
 		errCh := make(chan error, 16)
 		job, err := jobs.New(&jobs.NewParams{JobConfig: &config.Config{WorkerCount: p.workers, KeyGroupCount: 4, WorkingStorageLocation: "memory:///w", Sources: []connectors.SourceConfig{w.src}},
 			Clock: w.clock, HeartbeatDeadline: deadline, Store: w.loc, ErrChan: errCh,
-			OperatorFactory:     func(senderID string, node *jobpb.NodeIdentity) proto.Operator { return &jobh.FakeOp{Id: node.Id, Net: w.net} },
+			OperatorFactory: func(senderID string, node *jobpb.NodeIdentity) proto.Operator {
+				return &jobh.FakeOp{Id: node.Id, Net: w.net}
+			},
 			SourceRunnerFactory: func(node *jobpb.NodeIdentity) proto.SourceRunner { return &jobh.FakeSR{Id: node.Id, Net: w.net} }})
 		if err != nil {
 			panic(fmt.Sprintf("mc: harness: jobs.New: %v", err))
